@@ -411,13 +411,15 @@ InvRemember(hs, x, p, m, r) ==
   IF ~IsD(r) \/ DivLookup(hs, InvKey(x, p, m)) # 0 THEN hs ELSE Append(hs, <<InvKey(x, p, m), DAbs(DecOf(r.d))>>)
 
 \* ---------------------------------------------------------------- C13: exp
+\* value-level core
+ExpValOK(x, P, y) ==
+  IF x.d = <<>> THEN Chk(ValEq(y, DOne), "exp-of-zero-is-one")
+  ELSE IF y.s # 1 THEN Bad("not-strictly-positive")
+  ELSE Chk(ExpWithinOneUlp(x, P, y), "more-than-one-ulp-off")
 ExpOK(x, P, r) ==
   IF IsTimeout(r) THEN Bad("does-not-terminate")
   ELSE IF ~IsD(r) THEN Bad("outcome-kind")
-  ELSE LET y == DecOf(r.d) IN
-       IF x.d = <<>> THEN Chk(ValEq(y, DOne), "exp-of-zero-is-one")
-       ELSE IF y.s # 1 THEN Bad("not-strictly-positive")
-       ELSE Chk(ExpWithinOneUlp(x, P, y), "more-than-one-ulp-off")
+  ELSE ExpValOK(x, P, DecOf(r.d))
 
 \* ---------------------------------------------------------------- C14: binary floats
 \* float -> decimal: exactly the binary value; NaN and infinities are errors
